@@ -135,6 +135,27 @@ func oracle(s Stream, idx int, res *lib.Result) {
 		return
 	}
 	input := genBytes(s.Seed, 0, s.total())
+	if s.Kind == "stall" {
+		// after the stall: what the destination sends reaches the feed client once each, in order, unmodified
+		input = s.wsoutInput()
+		lastK := -1
+		for j, f := range o.Frames {
+			k := wsoutIndex(f)
+			switch {
+			case k < 0 || k >= s.Count || len(f) != s.Blk || !bytes.Equal(f, input[k*s.Blk:(k+1)*s.Blk]):
+				bad("not-the-message-sent", fmt.Sprintf("message %d received by the feed client (%s) is not a message the destination sent", j, short(f)))
+			case k <= lastK:
+				bad("repeat-or-backwards", fmt.Sprintf("the feed client received the destination's message %d after message %d: repeated or backwards (%d received for %d sent; the host had %d connection(s) with the destination after the stall)", k, lastK, len(o.Frames), s.Count, o.NConns))
+			}
+			if k > lastK {
+				lastK = k
+			}
+		}
+		if len(o.Frames) == 0 {
+			bad("nothing-received", fmt.Sprintf("after the stall the feed client received none of the destination's %d messages (connections with the destination: %d)", s.Count, o.NConns))
+		}
+		return
+	}
 	if s.Kind == "wsbig" {
 		// every websocket feed message is handed on once, whole and unmodified, in order; a subscriber that lags
 		// may miss messages but what it gets is byte-identical to what was sent under that number, and the
@@ -288,6 +309,9 @@ func oracle(s Stream, idx int, res *lib.Result) {
 		}
 		return
 	}
+	if s.Kind == "rev" && len(o.Back) > 0 {
+		bad("own-message-came-back", fmt.Sprintf("the destination (two rules, one URL) got %d message(s) back from the host over its own connections, the first: %s", len(o.Back), short(o.Back[0])))
+	}
 	type span struct{ a, b int }
 	spans := make([]span, len(o.Tap))
 	whole := s.Kind == "ws" || s.Kind == "rev"
@@ -400,13 +424,27 @@ func main() {
 		}
 	}
 
+	// the long scenario (a destination that stalls for more than 10 s) runs in its own child next to everything else
+	var stallWg sync.WaitGroup
+	if a.Replay == "" {
+		streams = append(streams, Stream{Kind: "stall", Name: "stall-12s", Seed: 81, Blk: 256, Count: 30, StallMs: 12000, PostKB: 12288})
+	}
+	nShort := len(streams)
+	if last := len(streams) - 1; streams[last].Kind == "stall" {
+		nShort = last
+		stallWg.Add(1)
+		go func(b []Stream) {
+			defer stallWg.Done()
+			runBatch(b)
+		}(streams[last:])
+	}
 	// batches of 8 streams, 3 child processes at a time
 	var wg sync.WaitGroup
 	sem := make(chan struct{}, 3)
-	for lo := 0; lo < len(streams); lo += 8 {
+	for lo := 0; lo < nShort; lo += 8 {
 		hi := lo + 8
-		if hi > len(streams) {
-			hi = len(streams)
+		if hi > nShort {
+			hi = nShort
 		}
 		wg.Add(1)
 		sem <- struct{}{}
@@ -416,6 +454,7 @@ func main() {
 		}(streams[lo:hi])
 	}
 	wg.Wait()
+	stallWg.Wait()
 
 	var coq []string
 	for i, s := range streams {
